@@ -704,7 +704,12 @@ def rule_r9(ctx) -> List[R.Inst]:
                "_from_series_allowed_names()" in unparse(n.generators[0].ifs[0]) and
                isinstance(n.generators[0].ifs[0], ast.Compare) and isinstance(n.generators[0].ifs[0].ops[0], ast.In)
                for n in ast.walk(fn.node))
-    keeps = any(isinstance(n, ast.DictComp) and unparse(n.key) == "k" and unparse(n.value) == "v" for n in ast.walk(fn.node))
+    def _kv(n):
+        # {k: v for k, v in <items>}: key and value are the two unpacked names themselves, whatever they are called
+        t = n.generators[0].target
+        return isinstance(t, ast.Tuple) and len(t.elts) == 2 and all(isinstance(x, ast.Name) for x in t.elts) and \
+            unparse(n.key) == t.elts[0].id and unparse(n.value) == t.elts[1].id
+    keeps = any(isinstance(n, ast.DictComp) and _kv(n) for n in ast.walk(fn.node))
     reraises = any(isinstance(n, ast.ExceptHandler) and any(isinstance(x, ast.Raise) for x in n.body) for n in ast.walk(fn.node))
     if filt and keeps and reraises:
         insts.append(R.ok("C16.R9", "from_series", file, line, idiom="cls(**{k: v if k allowed}); missing field re-raised"))
@@ -954,8 +959,15 @@ def rule_r13(ctx) -> List[R.Inst]:
     # (c) from_dict fill
     fn = M.fn(TL + ".from_dict")
     file, line = fn_loc(M, TL + ".from_dict")
+    # the loop variable that carries the declared default: the last name of `for name, (type, default) in <…>._props.items()`
+    dnames = {"default"}
+    for n in ast.walk(fn.node):
+        if isinstance(n, ast.For) and "_props" in unparse(n.iter) and isinstance(n.target, ast.Tuple):
+            nm_ = [x.id for x in ast.walk(n.target) if isinstance(x, ast.Name)]
+            if nm_:
+                dnames = {nm_[-1]}
     fills = [n for n in ast.walk(fn.node) if isinstance(n, ast.Assign) and isinstance(n.targets[0], ast.Subscript) and
-             any(isinstance(x, ast.Name) and x.id == "default" for x in ast.walk(n.value))]
+             any(isinstance(x, ast.Name) and x.id in dnames for x in ast.walk(n.value))]
     if not fills:
         insts.append(R.undec(rid, "from_dict", file, line, "default fill not found"))
     else:
